@@ -64,15 +64,24 @@ fn hook_windows(c: &mut Case) {
     let mut last_registered = 0usize; // index of the waker used by the most recent Pending poll
     let mut ready = false;
     // a few sequential polls / partial drops first
-    for _ in 0..c.rng.below(4) {
-        if c.rng.chance(1, 2) && tokens.borrow().len() > 1 {
+    for _ in 0..c.rng.below(7) {
+        if c.rng.chance(1, 3) && tokens.borrow().len() > 1 {
             tokens.borrow_mut().pop();
             trace.push("drop one token (not the last)".into());
         } else {
-            if c.rng.chance(1, 3) {
-                wakers.push(CountWaker::new());
+            // a fresh waker, the latest one, or an EARLIER one again (A, B, A: a future that
+            // caches the waker it registered must notice every change)
+            let wi = match c.rng.below(3) {
+                0 => {
+                    wakers.push(CountWaker::new());
+                    wakers.len() - 1
+                }
+                1 => wakers.len() - 1,
+                _ => c.rng.below(wakers.len()),
+            };
+            if wi + 1 < wakers.len() {
+                c.l.count("polls_with_an_earlier_waker_again");
             }
-            let wi = wakers.len() - 1;
             let live = tokens.borrow().len();
             let r = poll_with(&mut fut, &wakers[wi]);
             trace.push(format!("poll(shutdown future) with waker #{wi} -> {}", if r.is_ready() { "Ready" } else { "Pending" }));
@@ -177,6 +186,15 @@ fn shutdown_points(c: &mut Case, scale: Scale) {
     let pipelined = pipelined && case.reqs.iter().all(|r| r.preamble.role != crate::wire::AUTHORIZER);
     if pipelined {
         conn::make_pipelined(&mut case);
+    }
+    if !pipelined && c.rng.chance(1, 4) {
+        // a handler that returns early but spans several polls (so that shutdown can be requested
+        // while it runs): for a Filter this leaves Request::close to wait for the Data stream
+        if let Some(k) = (0..case.reqs.len()).find(|&k| case.reqs[k].preamble.role == crate::wire::FILTER) {
+            let n = 1 + c.rng.below(3);
+            case.scripts[k] = Script { ops: vec![Op::Yield; n], propagate: true, status: case.scripts[k].status };
+            c.l.count("bases_with_an_early_returning_filter_handler");
+        }
     }
     let Ok(model) = conn_model(&case) else { return };
     let seed = c.rng.next_u64();
@@ -384,7 +402,7 @@ pub fn run(ctx: &Ctx, evidence: Option<&PathBuf>) -> i32 {
     ctx.run_fixed("hook-directed", ctx.dn(400), hook_windows);
     ctx.run_cases("hook-windows", ctx.size(40_000, 2_000_000), hook_windows);
     ctx.run_fixed("shutdown-directed", ctx.dn(24), |c| shutdown_points(c, scale));
-    ctx.run_cases("shutdown-points", ctx.size(60, 6_000), |c| shutdown_points(c, scale));
+    ctx.run_cases("shutdown-points", ctx.size(500, 10_000), |c| shutdown_points(c, scale));
     let (runs, rounds) = match scale {
         Scale::Full => (ctx.size(16, 400), 150),
         Scale::San => (8, 200),
